@@ -3,35 +3,66 @@
 #ifndef TETL_CMATH_SQRT_HPP
 #define TETL_CMATH_SQRT_HPP
 
+#include <etl/_config/all.hpp>
+
 #include <etl/_3rd_party/gcem/gcem.hpp>
 #include <etl/_concepts/integral.hpp>
+#include <etl/_type_traits/is_constant_evaluated.hpp>
+#include <etl/_type_traits/is_same.hpp>
 
 namespace etl {
 
-/// Computes the square root of arg.
-/// \details https://en.cppreference.com/w/cpp/numeric/math/sqrt
-/// \ingroup cmath
-[[nodiscard]] constexpr auto sqrt(float arg) noexcept -> float { return etl::detail::gcem::sqrt(arg); }
+namespace detail {
+
+template <typename T>
+[[nodiscard]] constexpr auto sqrt(T arg) noexcept -> T
+{
+    if (not is_constant_evaluated()) {
+        if constexpr (is_same_v<T, float>) {
+#if __has_builtin(__builtin_sqrtf)
+            return __builtin_sqrtf(arg);
+#endif
+        }
+        if constexpr (is_same_v<T, double>) {
+#if __has_builtin(__builtin_sqrt)
+            return __builtin_sqrt(arg);
+#endif
+        }
+        if constexpr (is_same_v<T, long double>) {
+#if __has_builtin(__builtin_sqrtl)
+            return __builtin_sqrtl(arg);
+#endif
+        }
+    }
+    return detail::gcem::sqrt(arg);
+}
+
+} // namespace detail
 
 /// Computes the square root of arg.
 /// \details https://en.cppreference.com/w/cpp/numeric/math/sqrt
 /// \ingroup cmath
-[[nodiscard]] constexpr auto sqrtf(float arg) noexcept -> float { return etl::detail::gcem::sqrt(arg); }
+[[nodiscard]] constexpr auto sqrt(float arg) noexcept -> float { return etl::detail::sqrt(arg); }
 
 /// Computes the square root of arg.
 /// \details https://en.cppreference.com/w/cpp/numeric/math/sqrt
 /// \ingroup cmath
-[[nodiscard]] constexpr auto sqrt(double arg) noexcept -> double { return etl::detail::gcem::sqrt(arg); }
+[[nodiscard]] constexpr auto sqrtf(float arg) noexcept -> float { return etl::detail::sqrt(arg); }
 
 /// Computes the square root of arg.
 /// \details https://en.cppreference.com/w/cpp/numeric/math/sqrt
 /// \ingroup cmath
-[[nodiscard]] constexpr auto sqrt(long double arg) noexcept -> long double { return etl::detail::gcem::sqrt(arg); }
+[[nodiscard]] constexpr auto sqrt(double arg) noexcept -> double { return etl::detail::sqrt(arg); }
 
 /// Computes the square root of arg.
 /// \details https://en.cppreference.com/w/cpp/numeric/math/sqrt
 /// \ingroup cmath
-[[nodiscard]] constexpr auto sqrtl(long double arg) noexcept -> long double { return etl::detail::gcem::sqrt(arg); }
+[[nodiscard]] constexpr auto sqrt(long double arg) noexcept -> long double { return etl::detail::sqrt(arg); }
+
+/// Computes the square root of arg.
+/// \details https://en.cppreference.com/w/cpp/numeric/math/sqrt
+/// \ingroup cmath
+[[nodiscard]] constexpr auto sqrtl(long double arg) noexcept -> long double { return etl::detail::sqrt(arg); }
 
 /// Computes the square root of arg.
 /// \details https://en.cppreference.com/w/cpp/numeric/math/sqrt
@@ -39,7 +70,7 @@ namespace etl {
 template <integral T>
 [[nodiscard]] constexpr auto sqrt(T arg) noexcept -> double
 {
-    return etl::detail::gcem::sqrt(static_cast<double>(arg));
+    return etl::detail::sqrt(static_cast<double>(arg));
 }
 
 } // namespace etl
